@@ -197,6 +197,7 @@ func natList0(xs []int) string {
 }
 
 func (r *srvRun) record(act, human string) {
+	r.e.inflight(map[string]interface{}{"trace_so_far": r.replay(), "last": human})
 	quiesce()
 	r.trace = append(r.trace, human)
 	r.steps = append(r.steps, "("+act+", "+r.observe()+")")
